@@ -276,6 +276,72 @@ def _uninstall():
     _real.clear()
 
 
+# ---------------------------------------------------------------------------------------------
+# process-wide state of the library: a real process starts with freshly imported bisturi modules, a virtual one shares
+# them with the other virtual processes of the worker. What a fresh import would reset - the module-level bindings and
+# the class attributes of the library that hold plain data (numbers, strings, None, tuples, dict / list / set) - is
+# therefore saved and restored with the process, like its module table.
+# ---------------------------------------------------------------------------------------------
+_PLAIN = (int, float, str, bytes, bool, type(None), tuple, frozenset)
+_BOXES = (dict, list, set)
+_OWNERS = [None]
+
+
+def _lib_owners():
+    n = sum(1 for name in sys.modules if name == 'bisturi' or name.startswith('bisturi.'))
+    if _OWNERS[0] is None or _OWNERS[0][0] != n:
+        owners = [n]
+        for name, mod in list(sys.modules.items()):
+            if mod is not None and (name == 'bisturi' or name.startswith('bisturi.')):
+                owners.append(mod)
+                for v in list(vars(mod).values()):
+                    if isinstance(v, type) and getattr(v, '__module__', None) == name:
+                        owners.append(v)
+        _OWNERS[0] = owners
+    return _OWNERS[0][1:]
+
+
+def lib_snapshot():
+    snap = {}
+    for o in _lib_owners():
+        for k, v in list(vars(o).items()):
+            if k.startswith('__') and k.endswith('__'):
+                continue
+            t = type(v)
+            if t in _BOXES:
+                snap[(id(o), k)] = (o, k, v, t(v))
+            elif t in _PLAIN:
+                snap[(id(o), k)] = (o, k, v, None)
+    return snap
+
+
+def lib_restore(snap):
+    for o in _lib_owners():
+        for k, v in list(vars(o).items()):
+            if k.startswith('__') and k.endswith('__'):
+                continue
+            t = type(v)
+            if t not in _BOXES and t not in _PLAIN:
+                continue
+            if (id(o), k) not in snap:
+                try:
+                    delattr(o, k)           # appeared in another process
+                except (AttributeError, TypeError):
+                    pass
+    for (_, k), (o, k2, v, content) in snap.items():
+        if content is not None:
+            if type(v) is list:
+                v[:] = content
+            else:
+                v.clear()
+                v.update(content)
+        try:
+            if vars(o).get(k2, _OWNERS) is not v:
+                setattr(o, k2, v)
+        except (AttributeError, TypeError):
+            pass
+
+
 class Proc:
     def __init__(self, pid, body, write_bytecode):
         self.pid = pid
@@ -283,6 +349,7 @@ class Proc:
         self.write_bytecode = write_bytecode
         self.modules = {}
         self.locks = {}
+        self.lib = None
         self.sem = threading.Semaphore(0)
         self.finished = False
         self.dead = False
@@ -446,6 +513,8 @@ class Run:
                 frm.modules[name] = sys.modules.pop(name)
             frm.locks = dict(_B._module_locks)
             _B._module_locks.clear()
+            frm.lib = lib_snapshot()
+        lib_restore(to.lib if to.lib is not None else self.lib0)
         sys.modules.update(to.modules)
         to.modules = {}
         _B._module_locks.update(to.locks)
@@ -483,6 +552,7 @@ class Run:
                 p.modules[name] = sys.modules.pop(name)
             p.locks = dict(_B._module_locks)
             _B._module_locks.clear()
+            p.lib = lib_snapshot()
             if nxt is not None:
                 self._switch(None, self.procs[nxt])
             self.done.release()
@@ -497,6 +567,12 @@ class Run:
         saved_dwb = sys.dont_write_bytecode
         saved_locks = dict(_B._module_locks)
         saved_mods = {n: sys.modules.pop(n) for n in [n for n in sys.modules if n.startswith(self.private)]}
+        for sub in ('packet', 'field', 'codegen', 'structural_fields', 'deferred', 'fragments', 'descriptor', 'pattern_matching', 'packet_builder', 'util'):
+            try:
+                __import__('bisturi.' + sub)      # the baseline is the state right after importing the whole library
+            except ImportError:
+                pass
+        self.lib0 = lib_snapshot()
         _install()
         _RUN[0] = self
         try:
@@ -528,6 +604,7 @@ class Run:
         finally:
             _RUN[0] = None
             _uninstall()
+            lib_restore(self.lib0)
             for n in [n for n in sys.modules if n.startswith(self.private)]:
                 sys.modules.pop(n, None)
             sys.modules.update(saved_mods)
